@@ -137,6 +137,11 @@ func (c *clusterW) setNodeCount(n string) int {
 	return c.setNodes[n]
 }
 
+func safeClose(c chan struct{}) {
+	defer func() { _ = recover() }()
+	close(c)
+}
+
 type watcher struct {
 	cw      *clusterW
 	cancel  context.CancelFunc
@@ -400,7 +405,7 @@ func runHistory(t *testing.T, name string, acts []action) (res result) {
 			case "release":
 				if a.K < len(x.watchers) && x.watchers[a.K].held {
 					wt := x.watchers[a.K]
-					close(wt.cw.hold)
+					safeClose(wt.cw.hold)
 					wt.cw.mu.Lock()
 					wt.cw.hold = nil
 					wt.cw.mu.Unlock()
@@ -441,7 +446,7 @@ func runHistory(t *testing.T, name string, acts []action) (res result) {
 						select {
 						case <-wt.cw.hold:
 						default:
-							close(wt.cw.hold)
+							safeClose(wt.cw.hold)
 						}
 					}
 					select {
@@ -488,7 +493,7 @@ func runHistory(t *testing.T, name string, acts []action) (res result) {
 				select {
 				case <-wt.cw.hold:
 				default:
-					close(wt.cw.hold)
+					safeClose(wt.cw.hold)
 				}
 			}
 		}
